@@ -201,6 +201,7 @@ def run(ctx):
     c07.new_line_table(ctx, "R17-d", only_gate=True)
     hull_guards(ctx, "R17-e")
     lookup_key_is_canonical(ctx, "R17-f")
+    source_text_indexed_relatively(ctx, "R17-g")
 
 
 def hull_guards(ctx, rid):
@@ -285,3 +286,47 @@ def lookup_key_is_canonical(ctx, rid):
                                 "selected lines are not found — they stay unformatted and get no diagnostics" % short(k)[:100],
                                 ["%s:%d" % (f.file, f.line)])
     r.floor(rid, n, 1, "lookup decisions in file_range_matches")
+
+
+def source_text_indexed_relatively(ctx, rid):
+    """R17-g: unit discipline — the text of one source file is indexed with positions relative to that file"""
+    import re
+    p, r = ctx.p, ctx.r
+    r.rule(rid, "span positions (`Span::lo/hi`) are offsets into the whole source map; the text of a file (`SourceFile::src`, "
+                "`SnippetProvider::big_snippet`) starts at the file's `start_pos`.  In every function (with its closures) that reads "
+                "one of those two texts, a string index / slice / `get` whose index derives from a span position also derives "
+                "from a `start_pos` field.  Indexing with the absolute position is right only for the first file of the session "
+                "(start_pos = 0): for every module file the line-range computation that --file-lines compares against looks at "
+                "the wrong byte")
+    ABS = re.compile(r"Span>?::(lo|hi|data)$")
+    IDX = ("get", "get_unchecked", "index", "split_at", "is_char_boundary", "get_mut")
+    units = {}
+    for f in p.by_crate["rustfmt_nightly"]:
+        units.setdefault(f.id.split("::{closure")[0], []).append(f)
+    nunits = nsites = 0
+    for root, fs in sorted(units.items()):
+        reads = any(((adt or "").endswith("SourceFile") and str(fld) == "src") or
+                    ((adt or "").endswith("SnippetProvider") and str(fld) == "big_snippet")
+                    for f in fs for (adt, var, fld, mode, bb, line) in f.field_accesses())
+        if not reads:
+            continue
+        nunits += 1
+        for f in fs:
+            for c in f.calls():
+                last = c.name.rsplit("::", 1)[-1]
+                if last not in IDX or not ("str" in c.name or "String" in c.name) or len(c.args) < 2 or c.args[1][0] == "k":
+                    continue
+                d = f.derived_from(c.args[1][1][0])
+                absd = [x for x in d["calls"] if ABS.search(x.name)]
+                if not absd:
+                    continue
+                nsites += 1
+                rel = any(str(x[2]) == "start_pos" for x in d["fields"])
+                r.instance(rid, "%s indexes file text with a span position" % short(f.id), "ok" if rel else "violation", c.loc(),
+                           "made relative with start_pos" if rel else "absolute")
+                if not rel:
+                    r.violation(rid, "%s indexes the text of a source file with an absolute span position" % short(root),
+                                "the index derives from %s and from no `start_pos`: correct only for the file that starts the source "
+                                "map" % sorted({short(x.name) for x in absd}), [c.loc()])
+    r.floor(rid, nunits, 4, "functions reading SourceFile::src / SnippetProvider::big_snippet")
+    r.floor(rid, nsites, 1, "file-text index sites driven by span positions (SnippetProvider::span_to_snippet)")
